@@ -189,6 +189,8 @@ class Emitter:
             return f"(TData {coq_str(t[1])})"
         if k == "nt":
             d = self.tbl.by_name[t[1]]
+            if not d["fields"]:
+                return "(TList TAny)"       # a field-less NamedTuple gets {"type": "array"} (no bounds)
             return "(TTuple " + cl([f"(false, {self.ty(f['type'])})" for f in d["fields"]]) + ")"
         if k == "td":
             return f"(TTyped {coq_str(t[1])})"
